@@ -1,5 +1,6 @@
 import Ypv.Lemmas.Search
 import Ypv.Lemmas.SearchPath
+import Ypv.Lemmas.SearchNodup
 /-!
 # C07 — yaml-paths search is sound and complete, and every printed path resolves
 
@@ -53,6 +54,37 @@ theorem found_is_position (c : Ctx) (d : SNode) (a : SAddr) (h : a ∈ (search c
   | seq _ _ => exact Or.inr (scan_sub c _ _ _ a h)
   | map _ _ _ _ => exact Or.inr (scan_sub c _ _ _ a h)
   | set _ _ => exact Or.inr (scan_sub c _ _ _ a h)
+
+/-- **In document order.**  The reported addresses are a sub-list (`List.Sublist`: same order, some
+left out) of the addresses of the positions of the document in document order — for every document,
+term test and option mix.  (A scalar document reports at most its root.) -/
+theorem search_in_document_order (c : Ctx) (d : SNode) (hd : d.isContainer = true) :
+    ((search c d).map Hit.addr).Sublist ((Spec.flat d []).map Spec.Pos.addr) := by
+  rw [search_eq_found]
+  have h := Nd.scan_sublist c (Spec.flat d []) [] 0
+  simp only [List.drop_zero] at h
+  cases d with
+  | scalar _ _ => simp [SNode.isContainer] at hd
+  | seq _ _ => exact h
+  | map _ _ _ _ => exact h
+  | set _ _ => exact h
+
+/-- **Each at most once.**  For a well-formed document (`Spec.wfKeys`: every mapping has pairwise
+different keys — own and inherited entries together —, every set pairwise different members; that is
+what YAML mappings / sets are) no address is reported twice — whatever the term test and the options,
+aliased repeats asked for or not (an aliased repeat is another position: the same value at another
+address).  Proof: `scan` / `leaves` list a sub-list of the position addresses (`Nd.scan_sublist`,
+`Nd.leaves_sublist`) and the position addresses of a well-formed document are pairwise different
+(`Nd.flat_nodup`, mutual induction: addresses below different children differ in the step after the
+common prefix). -/
+theorem search_reports_once (c : Ctx) (d : SNode) (hw : Spec.wfKeys d = true) :
+    ((search c d).map Hit.addr).Nodup := by
+  rw [search_eq_found]
+  exact Nd.found_nodup c d hw
+
+/-- the position addresses of a well-formed document are pairwise different -/
+theorem positions_distinct (d : SNode) (ad : SAddr) (hw : Spec.wfKeys d = true) :
+    ((Spec.flat d ad).map Spec.Pos.addr).Nodup := Nd.flat_nodup d ad hw
 
 /-- **Expansion.**  With `expand_children` on, a matched container is replaced by exactly the
 list `Spec.leaves` of the positions below it: what "yield the match" (`emit`) contributes for a
@@ -234,6 +266,21 @@ example : escapePathSection '.' ['a', '\\', '\\', 'b'] = ['a', '\\', '\\', 'b'] 
     search ⟨{}, fun _ => true⟩ dblDoc = [⟨['a', '\\', '\\', 'b'], [.key (.str ['a', '\\', '\\', 'b'])]⟩] ∧
     okAddr (liveIn dblDoc) dblDoc [.key (.str ['a', '\\', '\\', 'b'])] = false ∧
     reresolves ⟨{}, fun _ => true⟩ dblDoc ⟨['a', '\\', '\\', 'b'], [.key (.str ['a', '\\', '\\', 'b'])]⟩ = false := by
+  decide +kernel
+
+/-! ## Each at most once: the hypothesis is met; without it the statement fails -/
+
+example : Spec.wfKeys demoDoc = true ∧ Spec.wfKeys rrDoc = true ∧ Spec.wfKeys clashDoc = true := by decide +kernel
+/-- with value aliases asked for the aliased repeats are reported — at their own addresses -/
+example : ((search (demoCtx { inclValueAliases := true }) demoDoc).map Hit.addr) =
+    [[.key (.str "a".toList), .key (.str "k".toList)], [.key (.str "b".toList), .key (.str "k".toList)],
+     [.key (.str "c".toList), .idx 0], [.key (.str "c".toList), .idx 1]] := by decide +kernel
+/-- not a YAML mapping (`{a: v, a: v}`): the hypothesis fails and the address is reported twice -/
+def dupKeyDoc : SNode :=
+  .map none [(⟨none, .str "a".toList⟩, .scalar none (.str "v".toList)),
+             (⟨none, .str "a".toList⟩, .scalar none (.str "v".toList))] [] []
+example : Spec.wfKeys dupKeyDoc = false ∧
+    (search (demoCtx {}) dupKeyDoc).map Hit.addr = [[.key (.str "a".toList)], [.key (.str "a".toList)]] := by
   decide +kernel
 
 end Ypv.C07
